@@ -109,3 +109,26 @@ def h_shl_alpha(env, ng=2, nalpha=2, nsh=3):
     vb = env.arr("vb0", (7, nsh, ng), lo="-2", hi="2")          # pre-filled: overwritten
     ccall(env, SDMX_C, "contract_shl_to_alpha_l1_bwd", [ng, nalpha, nsh, vp.copy(), vb, csh.copy()])
     env.equal("<Ax,y>=<x,By>", _dot(env, p, vp), _dot(env, b, vb))
+
+
+def h_plain(env, ng=2):
+    """SDMXcontract_ao_to_bas / _bwd (the deriv = 0 pair; the backward routine *adds* to the AO potential)"""
+    mol, bas, atm, envv, ao_loc, nctr, rf_loc, yl = _layout()
+    nbas, natm, nrf, nao, ny = mol.nbas, mol.natm, int(rf_loc[-1]), int(ao_loc[-1]), int(yl[-1])
+    ylm = env.arr("ylm", (ny, ng), lo="-2", hi="2")
+    ao = env.arr("ao", (nao, ng), lo="-2", hi="2")
+    out = env.arr("vb0", (nrf, ng), lo="-2", hi="2")
+    tail = lambda: [np.array([0, nbas], dtype=np.int32), ao_loc, yl, atm.reshape(-1).copy(), natm, bas.reshape(-1).copy(), nbas, envv.copy(), nrf, rf_loc]
+    ccall(env, SDMX_C, "SDMXcontract_ao_to_bas", [ng, out, ylm.copy(), ao.copy()] + tail())
+    v = env.arr("v", (nrf, ng), lo="-2", hi="2")
+    aob = env.zeros((nao, ng))
+    ccall(env, SDMX_C, "SDMXcontract_ao_to_bas_bwd", [ng, v.copy(), ylm.copy(), aob] + tail())
+    env.equal("<Ax,y>=<x,By>", _dot(env, out, v), _dot(env, ao, aob))
+    # entry by entry: the potential of AO (shell, contraction, m) is Y_lm times the potential of that contraction's radial function
+    for sh in range(nbas):
+        ia, l = int(bas[sh, 0]), int(bas[sh, 1])
+        for ic in range(int(nctr[sh])):
+            for m in range(2 * l + 1):
+                for g in range(ng):
+                    env.equal("ao_potential_shell%d_contraction%d_m%d_g%d" % (sh, ic, m, g), aob[int(ao_loc[sh]) + ic * (2 * l + 1) + m, g],
+                              ylm[int(yl[ia]) + l * l + m, g] * v[int(rf_loc[sh]) + ic, g])
